@@ -22,7 +22,7 @@ ASSUMPTIONS = [
 BOUNDS = {"quick": "abc explicit/generated, at explicit, conn1s/abc a3, conn2/abc generated/explicit/root (str + variable leaves), closure/ab, all 1..2-rule configurators",
           "thorough": "quick + abt, abct, diamonds, conn2s/abc, conn2/abcd, 3-rule configurators"}
 QUICK = ["abc/explicit", "abc/generated", "at/explicit", "conn1s/abc/generated/a3", "conn1/abcd/explicit/a3", "conn2/abc/generated", "conn2/abc/explicit",
-         "conn2/abc/root", "closure/ab/generated", "mix3/abtn/explicit", "atmostneg/generated", "atmostneg/explicit"]
+         "conn2/abc/root", "closure/ab/generated", "mix3/abtn/explicit", "atmostneg/generated", "atmostneg/explicit", "ab/varnamed"]
 THOROUGH = QUICK + ["abt/explicit", "abct/explicit", "diamond/explicit", "diamond/generated", "conn2s/abc/generated", "conn2/abcd/generated", "abt/generated"]
 
 
@@ -43,6 +43,8 @@ def cfg_list(tier):
         extra = [("ExactlyOne(a,b) [explicit]", C('Cfg', "cfg", [C('ExactlyOne', "R1", [L("a"), L("b")])])),
                  ("ExactlyOne(a,b,c) & a->x [generated]", C('Cfg', "cfg", [C('ExactlyOne', None, [L("a"), L("b"), L("c")]), C('Imply', None, [L("a"), L("x")])])),
                  ("Not(All(a,b)) [generated]", C('Cfg', "cfg", [C('Not', None, [C('All', None, [L("a"), L("b")])]), C('Any', None, [L("a"), L("x")])])),
+                 ("AtMost2(n[0,3],a) & ccXor(a,b|b) [explicit, integer leaf]", C('Cfg', "cfg", [C('AtMost', "R1", [L("n", 0, 3), L("a")], 2), cfgspace.ccXor("ab", "b", "R2")])),
+                 ("AtLeast(-1,[t[-2,2]],sign=+) & Any(a,b) [generated, explicit sign]", C('Cfg', "cfg", [C('AtLeast', None, [L("t", -2, 2)], ('sign', 1, -1)), C('Any', None, [L("a"), L("b")])])),
                  ("XNor(a,b) & ccAny(x,y|x) [explicit]", C('Cfg', "cfg", [C('XNor', "R1", [L("a"), L("b")]), cfgspace.ccAny("xy", "x", "R2")]))]
         _CL[tier] = list(cfgs(tier)) + extra
     return _CL[tier]
